@@ -3,6 +3,7 @@ C10 — Conditions decide what their names say; loops make exactly n passes.
 Property theorems only; helper lemmas are in `Proofs/C10.lean`.
 -/
 import MahfModel.Proofs.C10
+import MahfModel.Proofs.C09
 namespace MahfModel.Props.C10
 open MahfModel.Conditions
 
@@ -133,6 +134,43 @@ theorem checkers_iff (th a b : Nat) :
     (partialEq a b = true ↔ a = b) ∧
     (deltaEq th a b = true ↔ ((a : Int) - b < th ∧ (b : Int) - a < th)) := by
   exact ⟨by simp [partialEq], deltaEq_iff th a b⟩
+
+/-- In exact arithmetic the delta measure on an ordered field is `|a − b| < threshold`. -/
+theorem deltaEq_field_iff {F : Type} [Field F] [LinearOrder F] [IsStrictOrderedRing F] (th a b : F) :
+    deltaEqG th a b = true ↔ |a - b| < th := deltaEqG_iff th a b
+
+/-- The statement the property asks for on objective values: an unchanged value is never a change. -/
+def changeOf_objective_stable : Prop :=
+  ∀ th v : Objective.F64, Objective.legal th = true → Objective.legal v = true →
+    ∀ r, deltaEqObj th v v = some r → (changeOfStep (fun _ _ => r) (some v) v).1 = false
+
+/-- Recorded finding: with `DeltaEqChecker<SingleObjective>` an objective that stays at +inf
+(`SingleObjective::default()`, infeasible solutions) is reported as changed on every evaluation,
+because `INFINITY − INFINITY = NaN` is not `< threshold` (C09's arithmetic finding surfacing here). -/
+theorem changeOf_inf_inf_fires (th : Objective.F64) :
+    deltaEqObj th .pinf .pinf = some false ∧
+    (changeOfStep (fun _ _ => false) (some Objective.F64.pinf) .pinf).1 = true := by
+  cases th <;> exact ⟨rfl, rfl⟩
+
+theorem changeOf_objective_not_stable : ¬ changeOf_objective_stable := by
+  intro h
+  have := h .pinf .pinf rfl rfl false rfl
+  simp [changeOfStep] at this
+
+/-- …and +inf is the only such value: for a finite unchanged value the difference is finite (it is
+exactly 0), so the class-level model leaves the verdict to exact arithmetic, where
+`deltaEq_field_iff` gives `|v − v| = 0 < threshold`: no change for every positive threshold. -/
+theorem changeOf_objective_stable_partial (th v : Objective.F64)
+    (hv : Objective.legal v = true) (hne : v ≠ .pinf) : deltaEqObj th v v = none := by
+  have h : (Objective.ovf : Int) > 0 := by exact_mod_cast Objective.ovf_pos
+  cases v with
+  | nan => simp [Objective.legal] at hv
+  | ninf => simp [Objective.legal] at hv
+  | pinf => exact absurd rfl hne
+  | fin k =>
+    have hr : Objective.roundCls 0 1 = .fin := by
+      simp [Objective.roundCls]; omega
+    simp [deltaEqObj, Objective.subC, hr]
 
 /-! ### And / Or / Not -/
 
